@@ -15,6 +15,7 @@ import (
 	"verifharness/world"
 
 	"github.com/google/go-tdx-guest/verify"
+	"google.golang.org/protobuf/proto"
 )
 
 func init() { Registry["C12"] = c12 }
@@ -656,6 +657,104 @@ func c12(x *mon.Ctx) {
 		}
 	})
 	x.Require("history", 0, 0, nh)
+
+	// ---- (c') histories that mix the two entry points (bytes / message) on one options value, and that present the SAME message
+	//      object again after the caller edited it in place: a refused call leaves nothing behind that the next call — through the
+	//      other entry point, for another quote — could mistake for its own; a message is judged by what it holds now
+	{
+		n := 0
+		for wi := 0; wi < x.Pick(3, 12); wi++ {
+			r := x.Rand(fmt.Sprint("mixed-entry-points", wi))
+			w := richHonest(r)
+			lvl := []int{world.LBase, world.LColl, world.LCrl}[wi%3]
+			honest := w.Case(lvl, "mixed-entry-points", fmt.Sprintf("w%d/honest", wi))
+			forgedW := w.Clone()
+			forgedW.Q.Body[136+r.Intn(48)] ^= 0x20 // MR_TD edited, signature not redone
+			forged := forgedW.Case(lvl, "mixed-entry-points", fmt.Sprintf("w%d/forged-body", wi))
+			firsts := map[string]func(*world.World){
+				"chain-damaged": func(f *world.World) { f.Q.Chain = append([]byte{}, f.Q.Chain...); f.Q.Chain[len(f.Q.Chain)/5] ^= 0x01 },
+				"chain-of-another-pki": func(f *world.World) {
+					o := world.NewPKI(world.Far, world.SgxExtension(f.P))
+					f.Q.Chain = world.ChainPEM(false, o.Leaf, o.Inter, o.Root)
+				},
+				"qe-signature-bad":        func(f *world.World) { f.Q.QeSig = append([]byte{}, f.Q.QeSig...); f.Q.QeSig[5] ^= 1 },
+				"attestation-key-other":   func(f *world.World) { k := world.NewKey(); f.Q.AttPub = world.RawPub(&k.PublicKey) },
+				"pool-lists-another-root": func(f *world.World) { f.Roots = certs(world.Issue(world.RootTemplate(world.Far), nil, world.NewKey())) },
+				"tcb-info-endpoint-down": func(f *world.World) {
+					f.Extra[world.TcbInfoURL(hex.EncodeToString(f.P.FMSPC[:]))] = world.Resp{Err: "down"}
+				},
+				"crl-without-collateral": nil,
+				"honest":                 func(f *world.World) {},
+			}
+			for fname, fault := range firsts {
+				for _, order := range []string{"bytes-then-message", "message-then-bytes", "message-then-message", "bytes-then-bytes"} {
+					fw := w.Clone()
+					first := fw.Case(lvl, "mixed-entry-points", "")
+					if fault != nil {
+						fault(fw)
+						first = fw.Case(lvl, "mixed-entry-points", "")
+					} else {
+						first.GetCollateral, first.CheckCRL = false, true
+					}
+					shared := &verify.Options{}
+					run := func(c *world.Case, asMessage bool) (bool, string) {
+						fresh, g := mon.Options(c)
+						shared.GetCollateral, shared.CheckRevocations, shared.Getter, shared.Now, shared.TrustedRoots = fresh.GetCollateral, fresh.CheckRevocations, g, fresh.Now, fresh.TrustedRoots
+						var e error
+						pv, st := mon.Guard(func() {
+							if asMessage {
+								e = verify.TdxQuote(mon.MessageFor([]string{"parsed", "built"}[n%2], c.Quote), shared)
+							} else {
+								e = verify.RawTdxQuote(c.Quote, shared)
+							}
+						})
+						if pv != "" {
+							return false, "panic: " + pv + "\n" + st
+						}
+						return e == nil, fmt.Sprint(e)
+					}
+					firstMsg, secondMsg := strings.HasPrefix(order, "message"), strings.HasSuffix(order, "message")
+					a1, _ := run(first, firstMsg)
+					for si, second := range []*world.Case{forged, honest, forged} {
+						acc, errS := run(second, secondMsg != (si == 2)) // (the third through the other entry point)
+						want := mon.RunVerify(second)
+						param := fmt.Sprintf("w%d/%s/first=%s(accepted=%v)/then=%s", wi, order, fname, a1, []string{"forged-body", "honest", "forged-body-other-entry-point"}[si])
+						if strings.HasPrefix(errS, "panic") || acc != want.Accepted {
+							x.Violation("mixed-entry-points", param, fmt.Sprintf("through the re-used options value: accepted=%v (%s); through a fresh value: accepted=%v (%s)", acc, errS, want.Accepted, want.Err), "verify", second)
+						}
+						x.Note("mixed-entry-points", param, acc, false, acc == want.Accepted)
+						n++
+					}
+				}
+			}
+			// the same message object, edited in place between two calls
+			for _, field := range []string{"pck_cert_chain", "signature", "body.mr_td", "qe_report", "qe_auth_data", "attestation_key"} {
+				m := mon.MessageFor("built", honest.Quote)
+				o, _ := mon.Options(honest)
+				cert := m.GetSignedData().GetCertificationData().GetQeReportCertificationData()
+				b := map[string][]byte{"pck_cert_chain": cert.GetPckCertificateChainData().GetPckCertChain(), "signature": m.GetSignedData().GetSignature(), "body.mr_td": m.GetTdQuoteBody().GetMrTd(),
+					"qe_report": cert.GetQeReport().GetMrSigner(), "qe_auth_data": cert.GetQeAuthData().GetData(), "attestation_key": m.GetSignedData().GetEcdsaAttestationKey()}[field]
+				if len(b) == 0 {
+					continue
+				}
+				var e1, e2, ef error
+				pv, _ := mon.Guard(func() {
+					e1 = verify.TdxQuote(m, o)
+					b[len(b)/3] ^= 0x04
+					e2 = verify.TdxQuote(m, o)
+					of, _ := mon.Options(honest)
+					ef = verify.TdxQuote(proto.Clone(m), of)
+				})
+				param := fmt.Sprintf("w%d/same-message-edited-in-place/%s", wi, field)
+				if pv != "" || e1 != nil || (e2 == nil) != (ef == nil) {
+					x.Violation("mixed-entry-points", param, fmt.Sprintf("first call err=%v; after the caller changed one bit of %s in place the same options value says err=%v, a fresh value on a copy says err=%v (panic %q)", e1, field, e2, ef, pv), "verify", honest)
+				}
+				x.Note("mixed-entry-points", param, e2 == nil, pv != "", (e2 == nil) == (ef == nil))
+				n++
+			}
+		}
+		x.Require("mixed-entry-points", n/5, n/3, n)
+	}
 
 	// ---- (d) Options.Now left nil across an expiry (wall clock)
 	staleDefaultTime(x)
